@@ -281,8 +281,13 @@ def r32(ctx, repo, upd):
            f"activity predicate wrong for {bad[0]}", node=mnode,
            label="range active iff min != max")
     # the guarded block
+    mtxt = txt(mvalue)
+
+    def tests_activity(t):
+        return isinstance(t, ast.Name) and t.id == mname or txt(
+            expand_bool_locals(upd, t)) == mtxt
     guard = [n for n in walk(upd) if isinstance(n, ast.If)
-             and isinstance(n.test, ast.Name) and n.test.id == mname
+             and tests_activity(n.test)
              and any(isinstance(x, ast.AugAssign) for x in walk(n))]
     if not guard:
         raise AnalysisError("Filter.update: guarded box block lost")
@@ -402,7 +407,9 @@ def r32(ctx, repo, upd):
         under = None
         n = resets[0].parent
         while n is not None and not isinstance(n, ast.FunctionDef):
-            if isinstance(n, ast.If) and mname in names_in(n.test):
+            if isinstance(n, ast.If) and (
+                    mname in names_in(n.test) or mtxt in txt(
+                        expand_bool_locals(upd, n.test))):
                 under = n
             n = getattr(n, "parent", None)
         ctx.ob("R3.2", under is None,
